@@ -42,9 +42,45 @@ class Skip(Exception):
     """Op cannot run in this world (dangling reference after minimisation): skipped."""
 
 
+class CallerThread:
+    """One thread of the simulated application.  It executes the library calls handed to it one at a time while the
+    scheduler (the main thread) waits: threads here are *where* a call runs, never a second call in flight."""
+
+    def __init__(self, name):
+        import queue
+        import threading
+        self.inbox, self.outbox = queue.Queue(), queue.Queue()
+        self.thread = threading.Thread(target=self._loop, name=name, daemon=True)
+        self.thread.start()
+
+    def _loop(self):
+        while True:
+            body = self.inbox.get()
+            if body is None:
+                return
+            try:
+                self.outbox.put(("ok", body()))
+            except BaseException as e:       # the body catches what the library raises; this is a harness fault
+                self.outbox.put(("err", e))
+
+    def run(self, body):
+        self.inbox.put(body)
+        kind, v = self.outbox.get()
+        if kind == "err":
+            raise v
+        return v
+
+
 class World:
-    def __init__(self, sempler, run_seed, prop):
+    def __init__(self, sempler, run_seed, prop, reference=False):
         self.sempler = sempler
+        # which thread of the application makes the calls: the main thread (most runs), one worker thread for the
+        # whole session, or one thread per simulated client (objects built in one thread are used in another).
+        # The history-free reference always runs in the main thread of its own process.
+        self.client = 0
+        self.threads = {}
+        tm = Streams(run_seed)["threads"].random()
+        self.thread_mode = "main" if (reference or tm < 0.7) else ("one_worker" if tm < 0.8 else "per_client")
         self.prop = prop
         self.streams = Streams(run_seed)
         self.objs = {}          # symbolic id -> live object
@@ -75,25 +111,40 @@ class World:
         if arm is not None:
             armt = (arm[0], int(arm[1]), boot.make_exc(arm[2]))
         buf = io.StringIO()
+
+        def body():
+            # (numpy's error state is per thread / context: the caller's settings are put in place where the call runs)
+            harness_err = np.seterr(**self.caller_err) if self.caller_err else None
+            try:
+                v = fn(*args, **kwargs)
+                return ("ok", v)
+            except KeyboardInterrupt as e:     # only ever raised by the simulator itself
+                if "injected by simulator" not in str(e):
+                    raise
+                return ("exc", e)
+            except Exception as e:
+                return ("exc", e)
+            finally:
+                if harness_err is not None:
+                    now = np.geterr()
+                    if any(now[k] != v for k, v in self.caller_err.items()):
+                        self.err_changed.append({k: [self.caller_err[k], now[k]] for k in self.caller_err if now[k] != self.caller_err[k]})
+                    np.seterr(**harness_err)      # the harness itself computes under its own (default) settings
+
         boot.seams_begin(armt)
-        harness_err = np.seterr(**self.caller_err) if self.caller_err else None
         try:
             with contextlib.redirect_stdout(buf):
-                v = fn(*args, **kwargs)
-            out = ("ok", v)
-        except KeyboardInterrupt as e:     # only ever raised by the simulator itself
-            if "injected by simulator" not in str(e):
-                raise
-            out = ("exc", e)
-        except Exception as e:
-            out = ("exc", e)
+                if self.thread_mode == "main":
+                    out = body()
+                else:
+                    key = 0 if self.thread_mode == "one_worker" else self.client
+                    t = self.threads.get(key)
+                    if t is None:
+                        t = self.threads[key] = CallerThread("application-thread-%d" % key)
+                        self.probes["thread.application_threads"] += 1
+                    out = t.run(body)
+                    self.probes["thread.calls_outside_main_thread"] += 1
         finally:
-            if harness_err is not None:
-                now = np.geterr()
-                if any(now[k] != v for k, v in self.caller_err.items()):
-                    self.err_changed.append({k: [self.caller_err[k], now[k]] for k in self.caller_err if now[k] != self.caller_err[k]})
-                np.seterr(**harness_err)      # the harness itself computes under its own (default) settings
-
             calls, pending = boot.seams_end()
         self.last_seam_calls = calls
         self.last_stdout = buf.getvalue()
@@ -171,6 +222,12 @@ class World:
         elif kind == "reseed":
             np.random.seed(int(rec["seed"]) % 2 ** 32)
             self.faults["rng.reseed"] += 1
+        elif kind == "bitgen":
+            # the application installs a fresh MT19937 bit generator behind numpy's global functions
+            # (numpy.random.set_bit_generator): another way of reseeding the global generator
+            np.random.set_bit_generator(np.random.MT19937(int(rec["seed"]) % 2 ** 32))
+            self.faults["rng.reseed"] += 1
+            self.faults["rng.set_bit_generator"] += 1
         elif kind == "getstate":
             self.states[rec["slot"]] = np.random.get_state()
         elif kind == "setstate":
